@@ -469,7 +469,10 @@ def _to_string(it, a, c): return to_string(it, a[0])
 
 
 @model('core::fmt::rt::Argument::new_display', 'core::fmt::rt::Argument::new_debug', 'core::fmt::rt::Argument::new_lower_hex')
-def _fmt_arg(it, a, c): return Opaque('fmtarg' if c.key.endswith('display') else 'fmtarg_dbg', deref(a[0]))
+def _fmt_arg(it, a, c):
+    v = deref(a[0])
+    if '::<char>' in c.inst and isinstance(v, int) and not isinstance(v, bool): v = Str(chr(v))
+    return Opaque('fmtarg' if c.key.endswith('display') else 'fmtarg_dbg', v)
 
 
 def _decode_template(tpl, args):
@@ -1323,3 +1326,41 @@ for _op in ('lt', 'le', 'gt', 'ge'):
 MODELS['std::slice::<impl [T]>::join'] = _join
 MODELS['std::slice::<impl [T]>::concat'] = _concat
 MODELS['core::slice::<impl [T]>::join'] = _join
+
+
+@model('std::string::String::drain')
+def _string_drain(it, a, c):
+    s = deref(a[0]); r = deref(a[1])
+    if s.s is None: raise Unsupported('drain of symbolic string')
+    lo, hi, _ = bounds_of(r)
+    b = s.s.encode()
+    i = lo[0] if lo is not None else 0; j = (hi[0] + (1 if hi[1] else 0)) if hi is not None else len(b)
+    if is_sym(i) or is_sym(j): raise Unsupported('drain with symbolic range')
+    if i > j or j > len(b): raise PanicPath('String::drain range out of bounds')
+    a[0].set(Str((b[:i] + b[j:]).decode()))
+    return IterV([x for x in b[i:j]])
+
+
+@model('core::char::methods::<impl char>::is_alphanumeric', 'std::char::methods::<impl char>::is_alphanumeric')
+def _is_alnum(it, a, c): return chr(deref(a[0])).isalnum()
+@model('core::char::methods::<impl char>::is_ascii_digit', 'core::char::methods::<impl char>::is_numeric')
+def _is_digit(it, a, c): return chr(deref(a[0])).isdigit()
+@model('core::char::methods::<impl char>::is_alphabetic')
+def _is_alpha(it, a, c): return chr(deref(a[0])).isalpha()
+
+
+@model('core::str::<impl str>::matches')
+def _str_matches(it, a, c):
+    s = sval(a[0])
+    if s.s is None: raise Unsupported('matches on symbolic string')
+    pat = deref(a[1]); out = []
+    if isinstance(pat, (FnItem, Closure)):
+        for ch in s.s:
+            it._fnitem_ctx = c.fn
+            if it.call_closure(pat, [ord(ch)]): out.append(Ref([Str(ch)], 0))
+    elif isinstance(pat, int):
+        out = [Ref([Str(chr(pat))], 0) for ch in s.s if ord(ch) == pat]
+    elif isinstance(pat, Str) and pat.s:
+        out = [Ref([Str(pat.s)], 0)] * s.s.count(pat.s)
+    else: raise Unsupported('matches pattern %r' % (pat,))
+    return IterV(out)
